@@ -130,6 +130,7 @@ def scenario(chk, kind):
                 acc.append(jnp.asarray(r.info.acceptance_prob, jnp.float32))
                 kso.append(r.kernel_state)
             return dict(new=valsof(st), moved=moved, acc=acc, kst=kso)
+        f_seq, f_orc = K.with_stub(f_seq, rec), K.with_stub(f_orc, rec)
         key = jax.random.PRNGKey(9)
         okeys = jax.random.split(key, n)
         pre = "".join(ch for ch in kind if ch.isalnum())
